@@ -1258,7 +1258,7 @@ fn case_tfd(out: &mut Out, rng: &mut Rng) {
             _ => rng.usize_below(4),
         })
         .collect();
-    let true_len: u128 = shape.iter().map(|&d| d as u128).product();
+    let true_len: u128 = shape.iter().fold(1u128, |a, &d| a.saturating_mul(d as u128));
     let n = if true_len <= 64 && rng.chance(2, 3) { true_len as usize } else { rng.usize_below(8) };
     let req = format!("tfd {} {}", dims(&shape), n);
     let (r, _) = guarded(|| Tensor::<u8>::try_from_data(&shape[..], vec![0u8; n]).is_ok());
